@@ -275,6 +275,11 @@ func (n *Node) setup(logDir string, requestID string) error {
 	n.mu.Lock()
 	defer n.mu.Unlock()
 
+	// The files opened below belong to a new attempt: they must be flushed
+	// and closed again by teardown, even if an earlier attempt of the same
+	// node (a retry) has already been torn down.
+	n.done = false
+
 	// Set the log file path
 	n.data.State.StartedAt = time.Now()
 	n.data.State.Log = filepath.Join(logDir, fmt.Sprintf("%s.%s.%s.log",
